@@ -111,6 +111,13 @@ def build_task(mod, ts, tasks, outs, created, extra):
             hh.append(holder(sub=holder(inner=T)))
         elif pos == "h.sub.sub.items" and is_task_value:
             hh.append(holder(sub=holder(sub=holder(items=[T]))))
+        elif pos == "h.loaded" and is_task_value:
+            # a *loaded* configuration (what deserialisation — load / from_task_dir — returns: the `task` field is kept, `loaded` is
+            # set): its arguments are walked (dependency on T), the task that once produced it (tasks[emb[2]]) is not a dependency
+            L = holder(inner=T)
+            L.__xpm__.task = tasks[emb[2]]
+            L.__xpm__.loaded = True
+            hh.append(L)
         elif pos == "hs.inner" and is_task_value:
             hs.append(holder(inner=T))
         elif pos == "hs.items" and is_task_value:
@@ -201,7 +208,8 @@ def main():
                             snap_nodes = cfgbuild.model_graph(created)
                             snap_nodes[snap_index[id(t)]]["init"] = [snap_index[id(x)] for x in init]   # submit(init_tasks=…)
                             snapshots.append((snap_nodes, snap_index[id(t)],
-                                              sorted({snap_index[id(tasks[e[1]])] for e in ts["embeds"] if e[0] == "explicit"})))
+                                              sorted({snap_index[id(tasks[e[1]])] for e in ts["embeds"] if e[0] == "explicit"}),
+                                              sorted(snap_index[id(c)] for c in created if c.__xpm__.loaded)))
                         except KeyError:
                             # the task embeds an object nobody built (a copy made by the code under test): no graph for the model,
                             # the monitors on expected / actual dependencies still apply
@@ -234,10 +242,10 @@ def main():
                                 exp |= extra.get(e[1], set())
                         rec["expected"].append(sorted(exp))
                     for i, snap in enumerate(snapshots if all(x is not None for x in snapshots) else []):
-                        nodes, tn, explicit = snap
+                        nodes, tn, explicit, loaded = snap
                         rec["lines"].append({"op": "graph", "nodes": nodes})
                         rec["impl"].append({"ok": True})
-                        rec["lines"].append({"op": "deps", "n": tn, "explicit": explicit})
+                        rec["lines"].append({"op": "deps", "n": tn, "explicit": explicit, "loaded": loaded})
                         rec["impl"].append({"deps": sorted(snapshots[j][1] for j in actual[i])})
                     rec["actual"] = actual
             except Exception as e:
